@@ -646,6 +646,10 @@ def _constrain_ages(
         # TODO: even if nodes_fixed[p], this will still change the age
         if nodes_time[c] + epsilon >= nodes_time[p]:
             nodes_time[p] = nodes_time[c] + epsilon
+            if not nodes_time[p] > nodes_time[c]:
+                # epsilon was absorbed by floating point rounding: use the next
+                # representable time so that the branch length stays positive
+                nodes_time[p] = np.nextafter(nodes_time[c], np.inf)
 
     return nodes_time
 
